@@ -15,6 +15,7 @@ import (
 	"github.com/thought-machine/please/src/cli/logging"
 	"github.com/thought-machine/please/src/core"
 	"github.com/thought-machine/please/src/fs"
+	"github.com/thought-machine/please/src/verifhook"
 )
 
 var log = logging.Log
@@ -67,6 +68,9 @@ func parse(state *core.BuildState, label, dependent core.BuildLabel, mode core.P
 	}
 	// If we get here then it falls to us to parse this package.
 	state.LogParseResult(label, core.PackageParsing, "Parsing...")
+	if verifhook.Enabled {
+		verifhook.Event("ParseBegin", "label", label.String())
+	}
 
 	if subrepo != nil && subrepo.Target != nil {
 		// We have got the definition of the subrepo, but it depends on something, make sure that has been built.
